@@ -304,6 +304,8 @@ func rvJSON(cs M) string {
 		return "[]"
 	case "one":
 		return "[" + coin(0) + "]"
+	case "three": // three entries of one denomination (the running total must cover all earlier ones)
+		return "[" + coin(0) + "," + coin(0) + "," + coin(0) + "]"
 	}
 	return "[" + coin(0) + "," + coin(1) + "]"
 }
@@ -318,7 +320,7 @@ func (w *haltWorld) runParam(cs M) (submit, res, msg, block, pre, post string) {
 	c := NewChain(ChainOpts{ChainID: "teleport_9000-10", Accts: []Acct{funder}, Coins: map[string]sdk.Coins{"funder": extra},
 		Mutate: func(a *app.Teleport, gs simapp.GenesisState) {
 			g := rvestingtypes.DefaultGenesisState()
-			g.Params.EnableVesting = true
+			g.Params.EnableVesting = false // the pool keeps its genesis balance until the proposal's own values take effect
 			g.Params.PerBlockReward = sdk.NewCoins(sdk.NewInt64Coin("atele", 1))
 			if len(pool) > 0 {
 				g.From, g.InitReward = funder.Acc.String(), pool
